@@ -135,13 +135,10 @@ impl Outcome {
     pub fn first_diff(&self, other: &Outcome) -> Option<(String, String, String)> {
         match (self, other) {
             (Outcome::Ok(a), Outcome::Ok(b)) => a.first_diff(b),
-            (Outcome::Panic(a), Outcome::Panic(b)) => {
-                if a == b {
-                    None
-                } else {
-                    Some(("panic_message".into(), a.clone(), b.clone()))
-                }
-            }
+            // Both calls panicked. When more than one item of a parallel loop panics, which panic
+            // reaches the caller is unspecified by rayon's contract (the sequential loop reports the
+            // first in index order), so differing messages are not a difference in outcome.
+            (Outcome::Panic(_), Outcome::Panic(_)) => None,
             (Outcome::Ok(_), Outcome::Panic(b)) => Some(("panicked".into(), "ok".into(), format!("panic: {}", b))),
             (Outcome::Panic(a), Outcome::Ok(_)) => Some(("panicked".into(), format!("panic: {}", a), "ok".into())),
         }
